@@ -77,6 +77,16 @@ def rule_r1(ctx):
 
 def rule_r2(ctx):
     n = 0
+    from . import c14
+
+    # the temporary-mutation protocol may live in call_onnx_api or in the context-manager helper it enters (C14-R4
+    # checks whichever it is)
+    pf, ptry = c14.protocol_functions(ctx)
+    allowed = dict(INPUT_CONVERSION)
+    allowed.pop("onnx_ir.passes.common._c_api_utils:call_onnx_api", None)
+    if ptry is not None:
+        # the exemption holds only while the undo code sits in a finally (the full protocol is C14-R4)
+        allowed[pf.key] = "temporary; restored in the finally of the protocol (C14-R4)"
     for f in _pass_funcs(ctx):
         for c in calls_in(f):
             fn = c.func
@@ -92,11 +102,11 @@ def rule_r2(ctx):
             if coll == "outputs":
                 ok, why = False, "changes the number/order of graph outputs"
             else:
-                ok = f.key in INPUT_CONVERSION
+                ok = f.key in allowed
                 why = "changes the number of graph inputs outside the initializer/input conversion passes"
             ctx.check("R2", f"{f.local}: {norm(c)[:60]}", ok, f, c,
                       f"a pass {why}: positional correspondence of the model's interface is lost",
-                      how=("allowed: " + INPUT_CONVERSION[f.key]) if ok else "size-changing call on a graph's inputs/outputs")
+                      how=("allowed: " + allowed.get(f.key, "")) if ok else "size-changing call on a graph's inputs/outputs")
         for s in own_nodes(f.node):
             if isinstance(s, ast.Delete):
                 for t in s.targets:
@@ -106,25 +116,41 @@ def rule_r2(ctx):
                                   "a pass deletes an element of a graph's inputs/outputs", how="del on the interface list")
     # the conversion passes only touch inputs that are initializers
     for key, why in INPUT_CONVERSION.items():
-        f = ctx.repo.func(key)
         if "constant_manipulation" not in key:
             continue
-        guards = [x for x in own_nodes(f.node) if isinstance(x, ast.If) and (" in initializers" in norm(x.test) or " not in inputs_set" in norm(x.test))]
-        loops = [x for x in own_nodes(f.node) if isinstance(x, ast.For) and ("initializers" in norm(x.iter) or "inputs" in norm(x.iter))]
+        f = ctx.repo.func(key)
+        # a membership test (`in` / `not in`) on something derived from <graph>.initializers / <graph>.inputs guards
+        # the change, inside a loop over the initializers or the inputs
+        def derived(e):
+            names = {x.id for x in ast.walk(e) if isinstance(x, ast.Name)}
+            if any(isinstance(x, ast.Attribute) and x.attr in ("initializers", "inputs") for x in ast.walk(e)):
+                return True
+            for a in own_nodes(f.node):
+                if isinstance(a, (ast.Assign, ast.AnnAssign)) and getattr(a, "value", None) is not None:
+                    tg = a.targets if isinstance(a, ast.Assign) else [a.target]
+                    if any(isinstance(t, ast.Name) and t.id in names for t in tg) and any(
+                            isinstance(x, ast.Attribute) and x.attr in ("initializers", "inputs") for x in ast.walk(a.value)):
+                        return True
+            return False
+
+        guards = [x for x in own_nodes(f.node) if isinstance(x, (ast.If, ast.comprehension, ast.IfExp)) and any(
+            isinstance(c_, ast.Compare) and isinstance(c_.ops[0], (ast.In, ast.NotIn)) and derived(c_.comparators[0])
+            for t_ in ([x.test] if not isinstance(x, ast.comprehension) else x.ifs) for c_ in ast.walk(t_))]
+        loops = [x for x in own_nodes(f.node) if isinstance(x, (ast.For, ast.comprehension)) and derived(x.iter)]
         ctx.check("R2", f"{f.local}: input changes are limited to initializers", bool(guards) and bool(loops), f, f.node,
                   "the conversion pass can add/drop inputs that are not initializers", how="membership guard on initializers", nontrivial=True)
         n += 1
     ctx.require(n >= 6, f"only {n} interface-mutation sites found")
 
 
-def _depends(f: FuncInfo, expr: ast.AST, depth=0) -> set[str]:
-    """Attribute/call texts the expression data-depends on, through single-assignment locals of f."""
+def _depends(f: FuncInfo, expr: ast.AST, cn, depth=0) -> set[str]:
+    """Attribute/call texts (alpha-stable, see sa/canon.py) the expression data-depends on, through locals of f."""
     out = set()
     for x in ast.walk(expr):
         if isinstance(x, ast.Attribute):
-            out.add(norm(x))
+            out.add(cn(x))
         elif isinstance(x, ast.Call):
-            out.add(norm(x.func) + "()")
+            out.add(cn(x.func) + "()")
         elif isinstance(x, ast.Name) and depth < 4:
             for n in own_nodes(f.node):
                 tg = []
@@ -138,35 +164,67 @@ def _depends(f: FuncInfo, expr: ast.AST, depth=0) -> set[str]:
                 for t in tg:
                     if any(isinstance(y, ast.Name) and y.id == x.id for y in ast.walk(t)) and val is not expr:
                         if isinstance(t, ast.Subscript) and isinstance(t.value, ast.Name) and t.value.id == x.id:
-                            out |= _depends(f, n.value, depth + 1)
+                            out |= _depends(f, n.value, cn, depth + 1)
                         elif not isinstance(t, ast.Subscript):
-                            out |= _depends(f, val, depth + 1)
+                            out |= _depends(f, val, cn, depth + 1)
             # values fed into the object through its methods: h.update(data)
             for n in own_nodes(f.node):
                 if isinstance(n, ast.Call) and isinstance(n.func, ast.Attribute) and isinstance(n.func.value, ast.Name) \
                         and n.func.value.id == x.id and n.func.attr in ("update", "append", "add", "extend") and depth < 3:
                     for a in n.args:
-                        out |= _depends(f, a, depth + 1)
+                        out |= _depends(f, a, cn, depth + 1)
             # stores into the name: d[k] = v
             for n in own_nodes(f.node):
                 if isinstance(n, ast.Assign) and isinstance(n.targets[0], ast.Subscript) and isinstance(n.targets[0].value, ast.Name) \
                         and n.targets[0].value.id == x.id and depth < 3:
-                    out |= _depends(f, n.value, depth + 1)
+                    out |= _depends(f, n.value, cn, depth + 1)
     return out
 
 
+def _table_lookups(f: FuncInfo):
+    """Membership tests `K in D` / `K not in D` on a local table D that is also stored through `D[K'] = …`
+    (the equivalence-class table of a deduplicating pass)."""
+    stored = {}
+    for n in own_nodes(f.node):
+        if isinstance(n, ast.Assign) and isinstance(n.targets[0], ast.Subscript) and isinstance(n.targets[0].value, ast.Name):
+            stored.setdefault(n.targets[0].value.id, []).append(n)
+    out = []
+    for n in own_nodes(f.node):
+        if isinstance(n, ast.Compare) and len(n.ops) == 1 and isinstance(n.ops[0], (ast.In, ast.NotIn)) and isinstance(n.comparators[0], ast.Name) \
+                and n.comparators[0].id in stored:
+            out.append(n)
+    return out
+
+
+def _flag_set_under(f: FuncInfo, flag: str, pred) -> bool:
+    """`flag = True` occurs under an if-test satisfying pred."""
+    for n in own_nodes(f.node):
+        if isinstance(n, (ast.Assign, ast.AnnAssign)) and getattr(n, "value", None) is not None and isinstance(n.value, ast.Constant) and n.value.value is True:
+            tg = n.targets if isinstance(n, ast.Assign) else [n.target]
+            if any(isinstance(t, ast.Name) and t.id == flag for t in tg):
+                p = getattr(n, "_parent", None)
+                while p is not None and p is not f.node:
+                    if isinstance(p, ast.If) and pred(p.test):
+                        return True
+                    p = getattr(p, "_parent", None)
+    return False
+
+
 def rule_r3(ctx):
+    from ..canon import Canon
+
     repo = ctx.repo
     f = repo.func(f"{CSE}:CommonSubexpressionEliminationPass._eliminate_common_subexpression")
-    keys = [n for n in own_nodes(f.node) if isinstance(n, ast.Compare) and isinstance(n.ops[0], ast.In) and "existing_node_info" in norm(n.comparators[0])]
-    ctx.require(len(keys) == 1, "CSE: key membership test not found")
-    deps = _depends(f, keys[0].left)
+    cn = Canon(ctx.typer, f).cn
+    keys = _table_lookups(f)
+    ctx.require(len(keys) == 1, f"CSE: key membership test not found ({len(keys)} candidates)")
+    deps = _depends(f, keys[0].left, cn)
     ctx.tables["cse_key_depends_on"] = sorted(deps)
     facets = {
-        "operator identifier (domain, op_type, overload)": ("node.op_identifier()",),
-        "number of outputs": ("node.outputs",),
-        "inputs": ("node.inputs",),
-        "attributes": ("node.attributes.items()", "node.attributes"),
+        "operator identifier (domain, op_type, overload)": ("<Node>.op_identifier()",),
+        "number of outputs": ("<Node>.outputs",),
+        "inputs": ("<Node>.inputs",),
+        "attributes": ("<Node>.attributes.items()", "<Node>.attributes"),
     }
     for name, texts in facets.items():
         ok = any(t in deps for t in texts)
@@ -174,16 +232,21 @@ def rule_r3(ctx):
                   f"two nodes that differ in their {name} get the same key and are merged", how="data dependence through the key's locals",
                   construct=f"CSE key lacks {name}")
     # attribute values enter the key (not only the names)
-    ok = any(d in deps for d in ("v.value",)) and "sorted()" in deps
+    ok = any(d.endswith(".value") and (d.startswith("<Attr>") or d.startswith("$")) for d in deps) and "sorted()" in deps
     ctx.check("R3", "CSE key includes attribute values, order-normalised", ok, f, keys[0],
-              "attribute values (or a deterministic order of them) are missing from the key", how="v.value flows into sorted(attributes.items())")
-    # skips
-    skip_graph = any(isinstance(n, ast.If) and "AttributeType.GRAPH" in norm(n.test) and "AttributeType.GRAPHS" in norm(n.test) for n in own_nodes(f.node))
-    cont = [n for n in own_nodes(f.node) if isinstance(n, ast.If) and norm(n.test) == "control_flow_op" and any(isinstance(s, ast.Continue) for s in n.body)]
-    nd = [n for n in own_nodes(f.node) if isinstance(n, ast.If) and "_is_non_deterministic_op(node)" in norm(n.test) and any(isinstance(s, ast.Continue) for s in n.body)]
+              "attribute values (or a deterministic order of them) are missing from the key", how="<attr>.value flows into sorted(attributes.items())")
+    # skips: `if <flag>: continue` with the flag raised under a test naming AttributeType.GRAPH and GRAPHS, and
+    # `if _is_non_deterministic_op(node): continue`, both before the key lookup
+    def names_graph_kinds(t):
+        ds = {(dotted_of(x) or "") for x in ast.walk(t) if isinstance(x, ast.Attribute)}
+        return any(d.endswith("AttributeType.GRAPH") for d in ds) and any(d.endswith("AttributeType.GRAPHS") for d in ds)
+
+    conts = [n for n in own_nodes(f.node) if isinstance(n, ast.If) and any(isinstance(s_, ast.Continue) for s_ in n.body)]
+    cont = [n for n in conts if isinstance(n.test, ast.Name) and _flag_set_under(f, n.test.id, names_graph_kinds)]
+    nd = [n for n in conts if any(isinstance(x, ast.Call) and (dotted_of(x.func) or "") == "_is_non_deterministic_op" for x in ast.walk(n.test))]
     cfg = CFG(f.node)
     kn = cfg.nodes_containing(keys[0])[0]
-    ok = skip_graph and len(cont) == 1 and len(nd) == 1 and all(
+    ok = len(cont) == 1 and len(nd) == 1 and all(
         cfg.dominates([x for x in cfg.node_of(g) if x.kind == "test"][0], kn) for g in cont + nd)
     ctx.check("R3", "CSE skips nodes with subgraphs and non-deterministic ops before computing the key", ok, f, f.node,
               "control-flow or random nodes can be merged", how="both `continue` guards dominate the key lookup")
@@ -195,15 +258,21 @@ def rule_r3(ctx):
     # initializer deduplication keys
     for cls in ("DeduplicateInitializersPass", "DeduplicateHashedInitializersPass"):
         c = repo.func(f"onnx_ir.passes.common.initializer_deduplication:{cls}.call")
-        ks = [n for n in own_nodes(c.node) if isinstance(n, ast.Assign) and norm(n.targets[0]) == "key"]
-        ctx.require(len(ks) == 1, f"{cls}: key assignment not found")
-        d = _depends(c, ks[0].value)
-        ok = "const_val.dtype" in d and "const_val.shape" in d and (("_tobytes()" in d) or ("hashed.hexdigest()" in d and "const_val.numpy()" in d))
+        cn = Canon(ctx.typer, c).cn
+        ks = _table_lookups(c)
+        ctx.require(len(ks) >= 1, f"{cls}: key membership test not found")
+        d = set()
+        for k in ks:
+            d |= _depends(c, k.left, cn)
+        has = lambda suffix: any(x.endswith(suffix) for x in d)  # noqa: E731
+        content = has("_tobytes()") or has(".tobytes()") or (has(".hexdigest()") and has(".numpy()"))
+        ok = has(".dtype") and has(".shape") and content
         ctx.check("R3", f"{cls}: key depends on dtype, shape and content", ok, c, ks[0],
                   "initializers that differ in dtype, shape or content can be merged", how="data dependence of the key tuple",
-                  construct=f"{cls} key deps {sorted(x for x in d if 'const_val' in x or 'tobytes' in x or 'hashed' in x)}")
+                  construct=f"{cls} key deps {sorted(x for x in d if any(w in x for w in ('dtype', 'shape', 'tobytes', 'hexdigest', 'numpy')))}")
         if "Hashed" in cls:
-            confirm = any(isinstance(n, ast.If) and "_tobytes(" in norm(n.test) and "!=" in norm(n.test) and any(isinstance(s, ast.Continue) for s in n.body) for n in own_nodes(c.node))
+            confirm = any(isinstance(n, ast.If) and any(isinstance(x, ast.Compare) and isinstance(x.ops[0], ast.NotEq) and "tobytes" in norm(x) for x in ast.walk(n.test))
+                          and any(isinstance(s_, ast.Continue) for s_ in n.body) for n in own_nodes(c.node))
             ctx.check("R3", f"{cls}: a hash match is confirmed by comparing the bytes", confirm, c, c.node,
                       "a hash collision merges different initializers", how="`if bytes differ: continue` before the rewrite")
         skip = [x for x in calls_in(c) if dotted_of(x.func) == "_should_skip_initializer"]
